@@ -338,6 +338,17 @@ def scale_plans(tier, rng):
     plans.append({"tree": tree, "ops": [op("read_dir", ["d"]), op("read_dir", ["d", "..."]), op("metadata", ["d", ".h", "x"]),
                                         op("copy", ["d", ".f"], ["d", "..h", ".y"]), op("remove_dir_all", ["d", "..h"]),
                                         op("remove_dir_all", ["d"]), op("read", ["keep"])]})
+    # -- text: valid UTF-8 whose 2-, 3- and 4-byte characters straddle every block boundary B - {1,2,3}
+    #    (B = 4096k for k = 1..3, 8192, 32 KiB, 64 KiB), lengths right behind the character and well beyond
+    bounds = [4096, 8192, 12288, 32768, 65536]
+    for w in (2, 3, 4):
+        for d in range(1, w):
+            allb = {"text": [[b - d, w] for b in bounds], "n": 65536 + 100}
+            plans.append({"tree": root + [F(["t"], allb)], "ops": [op("read_string", ["t"]), op("fread_string", ["t"]), op("read", ["t"])]})
+            for b in bounds:
+                short = {"text": [[b - d, w]], "n": b - d + w}
+                plans.append({"tree": root + [F(["t"], short), F(["u"], {"text": [[b - d, w]], "n": b + 8})],
+                              "ops": [op("read_string", ["t"]), op("fread_string", ["u"]), op("fread_string", ["t"]), op("read_string", ["u"])]})
     # -- sparse sources (real holes, 16 KiB granules): hole at the start / in the middle / at the END / nothing but a
     #    hole / data-hole-data-hole, copied over a fresh and over an existing LONGER destination: same length, same bytes
     G = 16384
@@ -525,6 +536,38 @@ def finish_bigread(chk, proc):
                         {"mode": "bigread", "event": ev})
 
 
+def run_unpriv(chk, bindir, uid=65534):
+    """Process-wide state as a scenario dimension: listings, reads, remove_dir_all, create_dir_all+write as an
+    UNPRIVILEGED uid (forked child of the driver) on twin trees prepared by root under /var/tmp; whatever std::fs
+    performs successfully as that uid must succeed with tiny_std::fs too, with the same result (FsUnpriv.tla)."""
+    p = core.run_cmd([os.path.join(bindir, "fsops"), "unpriv", str(uid)], check=False, timeout=120)
+    evs = [json.loads(l) for l in p.stdout.splitlines() if l.startswith("{")]
+    recs = [e for e in evs if e.get("ev") == "unpriv"]
+    end = [e for e in evs if e.get("ev") == "unpriv_end"]
+    if p.returncode != 0 or not end:
+        raise core.ToolError("fsops unpriv failed rc=%s: %s" % (p.returncode, p.stderr[-1500:]))
+    if end[0]["status"] != 0 or not recs:
+        chk.violate({"op": "unprivileged", "expected": "returns", "got": "crashed", "detail": "unprivileged_uid"},
+                    "the unprivileged child died (wait status %s) after %d scenarios: %s" % (end[0]["status"], len(recs), p.stderr[-300:]),
+                    {"mode": "unpriv", "records": recs})
+    if recs:
+        path = os.path.join(chk.work, "unpriv.ndjson")
+        core.write_ndjson(path, recs)
+        res = core.run_tlc("FsUnpriv.tla", "FsUnpriv.cfg", workers=1, env={"TRACE": path}, timeout=300,
+                           metadir=os.path.join(core.WORK, "tlc-meta", "FsUnpriv-%d" % os.getpid()))
+        core.tlc_must_pass(res, "FsUnpriv")
+        j = res.printed("JUDGED")[0]
+        chk.add_tlc(res)
+        chk.evaluations += len(recs)
+        chk.traces += len(recs) - len(j["bad"])
+        for i in j["bad"]:
+            r = recs[i - 1]
+            chk.violate({"op": r["op"], "expected": "ok", "got": r["tiny"], "detail": "unprivileged_uid:" + r["scenario"]},
+                        "as uid %d: %s on %s: std::fs %s, tiny_std::fs %s (same result: %s) %s" % (uid, r["op"], r["scenario"], r["std"], r["tiny"], r["same"], r["note"]),
+                        {"mode": "unpriv", "record": r})
+    chk.extra["unprivileged_scenarios"] = [{k: r[k] for k in ("scenario", "op", "std", "tiny", "same")} for r in recs]
+
+
 def run_bigcopy(chk, bindir):
     """One copy of a sparse file larger than the kernel's per-call limit of copy_file_range
     (2 GiB - 4 KiB), so File::copy's loop really iterates.  Judged by the same rule as FsTree's
@@ -663,7 +706,7 @@ def run(tier):
     if tier == "quick":
         # every (operation, path spelling, prior state) once is 22k runs; quick keeps every operation on every
         # initial tree and every spelling, but thins the two-path operations
-        light = ("exists", "metadata", "remove_file", "remove_dir", "create_dir", "read", "oopen")
+        light = ("exists", "metadata", "remove_file", "remove_dir", "create_dir", "read", "read_string", "fread_string", "oopen")
         keep = [p for k, p in enumerate(plans1)
                 if (p["ops"][0]["op"] in ("copy", "rename") and k % 3 == chk.seed % 3)
                 or (p["ops"][0]["op"] in light and k % 2 == chk.seed % 2)
@@ -703,6 +746,7 @@ def run(tier):
             nontrivial.add(("scale", json.dumps(p["ops"][0]["p"])[:80], len(p["tree"])))
     nf = run_fanout(chk, bindir, tier)
     run_dirmatrix(chk, bindir, tier)
+    run_unpriv(chk, bindir)
     finish_bigread(chk, bigread)
     if tier == "thorough":
         run_bigcopy(chk, bindir)
